@@ -12,7 +12,44 @@ use routee_compass_powertrain::routee::prediction::PredictionModel;
 use serde_json::{json, Value};
 
 fn axes() -> Vec<Vec<f64>> {
-    vec![vec![0.0, 1.0], vec![0.0, 1.0, 2.0], vec![0.0, 0.5, 2.0], vec![-1.0, 0.0, 0.1, 5.0], vec![2.0, 3.0, 4.0, 5.0]]
+    // the last two are uneven axes whose first spacing equals their mean spacing (they look even to a test that compares only
+    // those two)
+    vec![vec![0.0, 1.0], vec![0.0, 1.0, 2.0], vec![0.0, 0.5, 2.0], vec![-1.0, 0.0, 0.1, 5.0], vec![2.0, 3.0, 4.0, 5.0], vec![0.0, 10.0, 12.0, 14.0, 16.0, 50.0], vec![0.0, 2.0, 3.0, 4.0, 11.0]]
+}
+
+/// reference: multilinear interpolation inside the cell that holds the point (cell found by a linear scan of every axis)
+fn ref_interp(grid: &[Vec<f64>], f: &dyn Fn(&[f64]) -> f64, p: &[f64]) -> f64 {
+    let n = grid.len();
+    let cell: Vec<usize> = (0..n)
+        .map(|d| {
+            let g = &grid[d];
+            let mut i = 0;
+            while i + 2 < g.len() && p[d] > g[i + 1] {
+                i += 1;
+            }
+            i
+        })
+        .collect();
+    let mut total = 0.0;
+    for corner in 0..(1usize << n) {
+        let mut w = 1.0;
+        let mut x = vec![0.0; n];
+        for d in 0..n {
+            let (lo, hi) = (grid[d][cell[d]], grid[d][cell[d] + 1]);
+            let t = (p[d] - lo) / (hi - lo);
+            if corner >> d & 1 == 1 {
+                w *= t;
+                x[d] = hi;
+            } else {
+                w *= 1.0 - t;
+                x[d] = lo;
+            }
+        }
+        if w != 0.0 {
+            total += w * f(&x);
+        }
+    }
+    total
 }
 
 /// query coordinates on one axis: (value, inside?)
@@ -191,8 +228,28 @@ fn generic(tier: Tier, st: &mut Stats) {
                 }
                 code += code_step;
             }
-            // agreement of the N-D interpolator with the fixed-dimension one on non-multilinear data
+            // data that is not multilinear (interpolating in the wrong cell no longer gives the right value): every interpolator
+            // against the reference interpolation in the cell that holds the point
             let (fixed, nd) = build(&grid, &wiggly);
+            for (p, _) in points.iter().filter(|p| p.1) {
+                let want = ref_interp(&grid, &wiggly, p);
+                for (name, it) in [("fixed", fixed.as_ref()), ("nd", Some(&nd))] {
+                    let it = match it {
+                        Some(i) => i,
+                        None => continue,
+                    };
+                    st.evaluations += 1;
+                    st.transitions += 1;
+                    st.traces += 1;
+                    let comp = format!("interp{}d.{}", n, name);
+                    let case = || json!({"kind": "generic_agreement", "grid": grid, "point": p});
+                    match guarded(|| it.interpolate(p, &Strategy::Linear)) {
+                        Ok(Ok(v)) if close(v, want, 1e-9) => st.pass("interpolates_in_the_cell_that_holds_the_point"),
+                        Ok(other) => st.violation(&comp, "interpolates_in_the_cell_that_holds_the_point", n as u64, || format!("at {:?}: {:?}, the cell that holds the point gives {}", p, other, want), case),
+                        Err(pn) => st.violation(&comp, "no_panic", n as u64, || pn.clone(), case),
+                    }
+                }
+            }
             if let Some(fx) = fixed {
                 for (p, inside) in points.iter().filter(|p| p.1) {
                     st.evaluations += 1;
